@@ -15,12 +15,15 @@ import (
 	"strconv"
 	"strings"
 
+	ipld "github.com/ipld/go-ipld-prime"
 	_ "github.com/ipld/go-ipld-prime/codec/dagcbor"
 	_ "github.com/ipld/go-ipld-prime/codec/dagjson"
 	"github.com/ipld/go-ipld-prime/datamodel"
 	"github.com/ipld/go-ipld-prime/linking"
 	cidlink "github.com/ipld/go-ipld-prime/linking/cid"
 	"github.com/ipld/go-ipld-prime/node/basicnode"
+	"github.com/ipld/go-ipld-prime/node/bindnode"
+	"github.com/ipld/go-ipld-prime/schema"
 	"github.com/ipld/go-ipld-prime/storage/memstore"
 	"github.com/ipld/go-ipld-prime/traversal"
 	"github.com/ipld/go-ipld-prime/traversal/selector"
@@ -33,6 +36,33 @@ import (
 	"verif/sim"
 	"verif/simstore"
 )
+
+// Typed roots: a reflection-bound Go value with a typed map (no duplicate-key
+// check of its own), a typed list and a nested struct.
+type TMap struct {
+	Keys   []string
+	Values map[string]int64
+}
+type TInner struct {
+	X int64
+	Y string
+}
+type TRoot struct {
+	M TMap
+	L []string
+	S TInner
+}
+
+var typedTS = func() *schema.TypeSystem {
+	ts, err := ipld.LoadSchemaBytes([]byte(`
+type TMap {String:Int}
+type TInner struct { X Int  Y String }
+type TRoot struct { M TMap  L [String]  S TInner }`))
+	if err != nil {
+		panic(err)
+	}
+	return ts
+}()
 
 type S struct{}
 
@@ -58,7 +88,7 @@ func (S) Info() scen.Info {
 			"reference model":      "abstract tree with expanded links + reference updater (replace / insert / delete / append / create-parents / transparent link crossing)",
 		},
 		QuickUnits: 4000, ThoroughUnits: 400000, QuickSecs: 50, ThoroughSecs: 1200,
-		ProbeKeys: []string{"probe.below_link", "probe.below_two_links", "probe.delete_map", "probe.insert_key", "probe.append", "probe.create_parents", "probe.identity", "probe.expected_error", "probe.walk_transform", "probe.walk_transform_selector_matched", "probe.int_backed_segment", "probe.fault_made_transform_fail", "probe.fault_survived", "probe.history_ge_3"},
+		ProbeKeys: []string{"probe.below_link", "probe.below_two_links", "probe.delete_map", "probe.insert_key", "probe.append", "probe.create_parents", "probe.identity", "probe.expected_error", "probe.typed_transform", "probe.walk_transform", "probe.walk_transform_selector_matched", "probe.int_backed_segment", "probe.fault_made_transform_fail", "probe.fault_survived", "probe.history_ge_3"},
 		EventsKey: "events",
 	}
 }
@@ -458,9 +488,33 @@ func (S) RunTape(t *sim.Tape, st *sim.Stats, keepLog bool) *sim.Outcome {
 		history []*model.V // expanded values of all earlier roots
 		roots   []datamodel.Node
 		steps   int
+		typed   bool
 	}
 	cls := make([]*client, ncl)
 	for c := range cls {
+		if t.Pct(20, "cfg.typedroot") {
+			r := &TRoot{M: TMap{Values: map[string]int64{}}, L: []string{}, S: TInner{X: int64(t.Choice(50, "tr.x")), Y: "y"}}
+			for i, n := 0, 1+t.Choice(4, "tr.nkeys"); i < n; i++ {
+				k := []string{"a", "b", "0", "7", "12", "key", "zz"}[t.Choice(7, "tr.key")]
+				if _, dup := r.M.Values[k]; dup {
+					continue
+				}
+				r.M.Keys = append(r.M.Keys, k)
+				r.M.Values[k] = int64(t.Choice(100, "tr.val"))
+			}
+			for i, n := 0, t.Choice(4, "tr.nlist"); i < n; i++ {
+				r.L = append(r.L, []string{"p", "q", "rr"}[t.Choice(3, "tr.item")])
+			}
+			root := bindnode.Wrap(r, typedTS.TypeByName("TRoot"))
+			e, err := w.expand(root, 0)
+			if err != nil {
+				panic("harness: typed root unreadable: " + err.Error())
+			}
+			cls[c] = &client{root: root, exp: e, steps: 3 + t.Choice(6, "nsteps"), typed: true}
+			st.Inc("probe.typed_root")
+			s.Log.Add(fmt.Sprintf("CLIENT %d typed root=%s", c, e))
+			continue
+		}
 		nolinks := t.Pct(25, "cfg.nolinks")
 		maxb := 6
 		if nolinks {
@@ -587,6 +641,52 @@ func (S) RunTape(t *sim.Tape, st *sim.Stats, keepLog bool) *sim.Outcome {
 					act.repl = repl()
 				case 7, 9:
 					ok = !hasLinks(strip(cl.exp))
+				}
+				if cl.typed {
+					// type-correct transforms only (a typed builder rightly refuses anything else)
+					m, l := cl.exp.Get("M"), cl.exp.Get("L")
+					ok = true
+					act = action{}
+					switch t.Choice(8, "x.typed") {
+					case 0:
+						if len(m.Keys) == 0 {
+							ok = false
+							break
+						}
+						kind, segs, act.repl = 0, []string{"M", m.Keys[t.Choice(len(m.Keys), "x.tkey")]}, model.IntV(int64(1000+t.Choice(9, "x.tv")))
+					case 1:
+						if len(m.Keys) == 0 {
+							ok = false
+							break
+						}
+						kind, segs, act.kind = 1, []string{"M", m.Keys[t.Choice(len(m.Keys), "x.tkey")]}, 1
+					case 2:
+						nk := []string{"new", "3", "44", "k2"}[t.Choice(4, "x.tnew")]
+						if m.Get(nk) != nil {
+							ok = false
+							break
+						}
+						kind, segs, act.repl = 3, []string{"M", nk}, model.IntV(int64(t.Choice(9, "x.tv")))
+					case 3:
+						if len(l.Vals) == 0 {
+							ok = false
+							break
+						}
+						kind, segs, act.repl = 0, []string{"L", strconv.Itoa(t.Choice(len(l.Vals), "x.tidx"))}, model.StringV("replaced")
+					case 4:
+						kind, segs, act.repl = 4, []string{"L", "-"}, model.StringV("appended")
+					case 5:
+						kind, segs, act.repl = 0, []string{"S", "X"}, model.IntV(int64(t.Choice(99, "x.tv")))
+					case 6:
+						kind, segs, act.repl = 0, []string{"S", "Y"}, model.StringV("why")
+					default:
+						if len(m.Keys) == 0 {
+							ok = false
+							break
+						}
+						kind, segs, act.kind = 2, []string{"M", m.Keys[t.Choice(len(m.Keys), "x.tkey")]}, 2
+					}
+					st.Inc("probe.typed_transform")
 				}
 				if !ok {
 					continue
